@@ -23,7 +23,16 @@ import (
 //     not necessarily rId1;
 //   - the kinds present: any subset of the six slots; w:headerReference / w:footerReference in any order in w:sectPr;
 //     header/footer parts (with a relationship) that no w:sectPr references (left-overs);
-//   - header/footer parts that show a picture through a relationship part of their own (word/_rels/header1.xml.rels).
+//   - header/footer parts that show a picture through a relationship part of their own (word/_rels/header1.xml.rels);
+//   - more than one section: every section but the last keeps its properties in a w:sectPr inside the w:pPr of its last
+//     paragraph (Word writes that for every section break), with header/footer references of its own; the body-level
+//     w:sectPr describes the last section and is what the document-level API of the library works on;
+//   - no styles part and no styles relationship at all (small generators): the relationship ids then count from rId1, so
+//     that a header or footer relationship IS rId1;
+//   - further relationships of the main part (here: external hyperlinks) in front of the header/footer ones, so that the
+//     header/footer ids lie past rId9 / rId10 or past rId64;
+//   - a PAGE field (w:fldSimple or begin/instrText/separate/result/end) next to the text of a part, the text of a part
+//     split over two runs or two paragraphs.
 
 // StartSlot is one header/footer part of the foreign package.
 type StartSlot struct {
@@ -34,7 +43,14 @@ type StartSlot struct {
 	Tgt    string `json:"tgt,omitempty"`   // spelling of the relationship target: "" header2.xml | "dot" ./header2.xml | "abs" /word/header2.xml | "up" ../word/header2.xml
 	ID     string `json:"id,omitempty"`    // relationship id ("" = rId<position+2>)
 	Pic    bool   `json:"pic,omitempty"`   // the part shows a picture through its own relationship part
-	Unref  bool   `json:"unref,omitempty"` // part and relationship exist, but w:sectPr does not reference the part: the kind is NOT defined
+	Unref  bool   `json:"unref,omitempty"` // part and relationship exist, but the body-level w:sectPr does not reference the part: the kind is NOT defined
+	Body   string `json:"body,omitempty"`  // content of the part: "" one run | "split" text in two runs | "paras" text in two paragraphs | "fldsimple" text + w:fldSimple PAGE | "fldcomplex" text + complex PAGE field
+}
+
+// EarlySect is a section in front of the last one: its w:sectPr sits in the w:pPr of the section's last paragraph.
+type EarlySect struct {
+	Refs []int `json:"refs,omitempty"` // the header/footer parts the section references (indices into Slots, in this order)
+	Text bool  `json:"text,omitempty"` // the paragraph that carries the w:sectPr has text of its own
 }
 
 type Start struct {
@@ -43,7 +59,26 @@ type Start struct {
 	StylesID   string      `json:"stylesid,omitempty"`   // id of the styles relationship ("" = rId1)
 	StylesLast bool        `json:"styleslast,omitempty"` // the styles relationship is the last one of the relationship part
 	File       bool        `json:"file,omitempty"`       // opened with document.Open from a file instead of OpenFromMemory
+	NoStyles   bool        `json:"nostyles,omitempty"`   // no styles part and no styles relationship: default ids count from rId1
+	Pad        int         `json:"pad,omitempty"`        // further relationships of the main part (external hyperlinks) in front of the header/footer ones
+	Earlier    []EarlySect `json:"earlier,omitempty"`    // the sections in front of the last one, in document order
 }
+
+// hasPage says whether the part shows a page number field.
+func (s StartSlot) hasPage() bool { return s.Body == "fldsimple" || s.Body == "fldcomplex" }
+
+// firstID is the number of the first default id of a header/footer relationship: rId1 is the styles relationship's
+// unless there is none, the padding relationships follow.
+func (st *Start) firstID() int {
+	n := 2
+	if st.NoStyles {
+		n = 1
+	}
+	return n + st.Pad
+}
+
+// padID is the id of the i-th padding relationship.
+func (st *Start) padID(i int) string { return fmt.Sprintf("rId%d", st.firstID()-st.Pad+i) }
 
 func (s StartSlot) key() key { return key{s.Footer, s.Kind} }
 
@@ -67,7 +102,7 @@ func (st *Start) relID(i int) string {
 	if st.Slots[i].ID != "" {
 		return st.Slots[i].ID
 	}
-	return fmt.Sprintf("rId%d", i+2)
+	return fmt.Sprintf("rId%d", i+st.firstID())
 }
 
 // libPart is the part name the library documents for a slot (properties.jsonl anchors: header1/headerfirst/headereven).
@@ -102,11 +137,23 @@ func (st *Start) slot(k key) (StartSlot, bool) {
 // two parts of one name, two definitions of one slot or a repeated relationship id is not a document of the domain).
 func (st *Start) valid() error {
 	names, ids, keys := map[string]bool{}, map[string]bool{}, map[key]bool{}
-	sid := st.StylesID
-	if sid == "" {
-		sid = "rId1"
+	if !st.NoStyles {
+		sid := st.StylesID
+		if sid == "" {
+			sid = "rId1"
+		}
+		ids[sid] = true
 	}
-	ids[sid] = true
+	if st.Pad < 0 || st.Pad > 200 {
+		return fmt.Errorf("pad %d", st.Pad)
+	}
+	for i := 0; i < st.Pad; i++ {
+		if id := st.padID(i); ids[id] {
+			return fmt.Errorf("padding relationship %d: id %q used twice", i, id)
+		} else {
+			ids[id] = true
+		}
+	}
 	for i, s := range st.Slots {
 		if s.Part == "" || strings.HasPrefix(s.Part, "/") || strings.Contains(s.Part, "..") || names[strings.ToLower(s.Part)] {
 			return fmt.Errorf("slot %d: part name %q empty, not below word/ or used twice", i, s.Part)
@@ -120,11 +167,25 @@ func (st *Start) valid() error {
 		if s.Kind != "default" && s.Kind != "first" && s.Kind != "even" {
 			return fmt.Errorf("slot %d: kind %q", i, s.Kind)
 		}
+		switch s.Body {
+		case "", "split", "paras", "fldsimple", "fldcomplex":
+		default:
+			return fmt.Errorf("slot %d: body %q", i, s.Body)
+		}
 		if !s.Unref {
 			if keys[s.key()] {
 				return fmt.Errorf("slot %d: %s defined twice", i, s.key())
 			}
 			keys[s.key()] = true
+		}
+	}
+	for n, es := range st.Earlier {
+		ks := map[key]bool{}
+		for _, i := range es.Refs {
+			if i < 0 || i >= len(st.Slots) || ks[st.Slots[i].key()] {
+				return fmt.Errorf("earlier section %d: reference %d out of range or second reference of its kind", n, i)
+			}
+			ks[st.Slots[i].key()] = true
 		}
 	}
 	if st.RefOrder != nil {
@@ -183,6 +244,36 @@ func relTarget(from, to string) string {
 	return strings.Repeat("../", len(fd)-i) + strings.Join(td[i:], "/")
 }
 
+// partBody writes the paragraphs of a header/footer part of the foreign package.
+func partBody(s StartSlot, pic string, styles bool) string {
+	ppr := ""
+	if styles { // the paragraph style lives in the styles part
+		ppr = `<w:pPr><w:pStyle w:val="` + map[bool]string{false: "Header", true: "Footer"}[s.Footer] + `"/></w:pPr>`
+	}
+	run := func(t string) string {
+		if t == "" {
+			return `<w:r><w:t></w:t></w:r>`
+		}
+		return `<w:r><w:t xml:space="preserve">` + esc(t) + `</w:t></w:r>`
+	}
+	r := []rune(s.Text)
+	a, b := string(r[:len(r)/2]), string(r[len(r)/2:])
+	switch s.Body {
+	case "split":
+		return `<w:p>` + ppr + pic + run(a) + `<w:proofErr w:type="spellStart"/>` + run(b) + `</w:p>`
+	case "paras":
+		return `<w:p>` + ppr + pic + run(a) + `</w:p><w:p>` + ppr + run(b) + `</w:p>`
+	case "fldsimple":
+		return `<w:p>` + ppr + pic + run(s.Text) + `<w:fldSimple w:instr=" PAGE   \* MERGEFORMAT "><w:r><w:rPr><w:noProof/></w:rPr><w:t>1</w:t></w:r></w:fldSimple></w:p>`
+	case "fldcomplex":
+		return `<w:p>` + ppr + pic + run(s.Text) + `<w:r><w:fldChar w:fldCharType="begin"/></w:r><w:r><w:instrText xml:space="preserve"> PAGE </w:instrText></w:r>` +
+			`<w:r><w:fldChar w:fldCharType="separate"/></w:r><w:r><w:rPr><w:noProof/></w:rPr><w:t>1</w:t></w:r><w:r><w:fldChar w:fldCharType="end"/></w:r></w:p>`
+	}
+	return `<w:p>` + ppr + pic + `<w:r><w:t>` + esc(s.Text) + `</w:t></w:r></w:p>`
+}
+
+const pageGeometry = `<w:pgSz w:w="11906" w:h="16838"/><w:pgMar w:top="1440" w:right="1800" w:bottom="1440" w:left="1800" w:header="851" w:footer="992" w:gutter="0"/>`
+
 // foreignPackage writes the package.
 func foreignPackage(st *Start) []byte {
 	var ct, refs strings.Builder
@@ -196,20 +287,27 @@ func foreignPackage(st *Start) []byte {
 	if anyPic {
 		ct.WriteString(`<Default Extension="png" ContentType="image/png"/>`)
 	}
-	ct.WriteString(`<Override PartName="/word/document.xml" ContentType="application/vnd.openxmlformats-officedocument.wordprocessingml.document.main+xml"/>` +
-		`<Override PartName="/word/styles.xml" ContentType="application/vnd.openxmlformats-officedocument.wordprocessingml.styles+xml"/>`)
-	sid := st.StylesID
-	if sid == "" {
-		sid = "rId1"
+	ct.WriteString(`<Override PartName="/word/document.xml" ContentType="application/vnd.openxmlformats-officedocument.wordprocessingml.document.main+xml"/>`)
+	stylesRel := ""
+	if !st.NoStyles {
+		ct.WriteString(`<Override PartName="/word/styles.xml" ContentType="application/vnd.openxmlformats-officedocument.wordprocessingml.styles+xml"/>`)
+		sid := st.StylesID
+		if sid == "" {
+			sid = "rId1"
+		}
+		stylesRel = `<Relationship Id="` + esc(sid) + `" Type="` + nsR + `/styles" Target="styles.xml"/>`
 	}
-	stylesRel := `<Relationship Id="` + esc(sid) + `" Type="` + nsR + `/styles" Target="styles.xml"/>`
 	var rels strings.Builder
 	rels.WriteString(xmlDecl + `<Relationships xmlns="http://schemas.openxmlformats.org/package/2006/relationships">`)
 	if !st.StylesLast {
 		rels.WriteString(stylesRel)
 	}
+	for i := 0; i < st.Pad; i++ {
+		fmt.Fprintf(&rels, `<Relationship Id="%s" Type="%s/hyperlink" Target="https://example.org/page%d" TargetMode="External"/>`, st.padID(i), nsR, i+1)
+	}
 	first := false
 	refOf := make([]string, len(st.Slots))
+	refAny := make([]string, len(st.Slots)) // the reference element of a slot, whether the body-level w:sectPr holds it or not
 	var order []string
 	for i, s := range st.Slots {
 		id := st.relID(i)
@@ -219,8 +317,9 @@ func foreignPackage(st *Start) []byte {
 		}
 		fmt.Fprintf(&ct, `<Override PartName="/%s" ContentType="application/vnd.openxmlformats-officedocument.wordprocessingml.%s+xml"/>`, s.name(), what)
 		fmt.Fprintf(&rels, `<Relationship Id="%s" Type="%s/%s" Target="%s"/>`, esc(id), nsR, what, esc(s.target()))
+		refAny[i] = fmt.Sprintf(`<w:%sReference w:type="%s" r:id="%s"/>`, what, s.Kind, esc(id))
 		if !s.Unref {
-			refOf[i] = fmt.Sprintf(`<w:%sReference w:type="%s" r:id="%s"/>`, what, s.Kind, esc(id))
+			refOf[i] = refAny[i]
 			if s.Kind == "first" {
 				first = true
 			}
@@ -231,8 +330,7 @@ func foreignPackage(st *Start) []byte {
 			parts[relsNameOf(s.name())] = []byte(xmlDecl + `<Relationships xmlns="http://schemas.openxmlformats.org/package/2006/relationships">` +
 				`<Relationship Id="rId1" Type="` + nsR + `/image" Target="` + relTarget(s.name(), foreignPictureName) + `"/></Relationships>`)
 		}
-		parts[s.name()] = []byte(fmt.Sprintf(xmlDecl+`<w:%s xmlns:w="%s" xmlns:r="%s"><w:p><w:pPr><w:pStyle w:val="%s"/></w:pPr>%s<w:r><w:t>%s</w:t></w:r></w:p></w:%s>`,
-			root, nsW, nsR, map[bool]string{false: "Header", true: "Footer"}[s.Footer], pic, esc(s.Text), root))
+		parts[s.name()] = []byte(fmt.Sprintf(xmlDecl+`<w:%s xmlns:w="%s" xmlns:r="%s">%s</w:%s>`, root, nsW, nsR, partBody(s, pic, !st.NoStyles), root))
 		order = append(order, s.name())
 		if s.Pic {
 			order = append(order, relsNameOf(s.name()))
@@ -260,16 +358,38 @@ func foreignPackage(st *Start) []byte {
 	if first {
 		title = `<w:titlePg/>`
 	}
+	// the earlier sections: some text, then the paragraph whose w:pPr carries the section's w:sectPr
+	var early strings.Builder
+	for n, es := range st.Earlier {
+		var er strings.Builder
+		etitle := ""
+		for _, i := range es.Refs {
+			er.WriteString(refAny[i])
+			if st.Slots[i].Kind == "first" {
+				etitle = `<w:titlePg/>`
+			}
+		}
+		fmt.Fprintf(&early, `<w:p><w:r><w:t>section %d of another producer</w:t></w:r></w:p>`, n+1)
+		run := ""
+		if es.Text {
+			run = `<w:r><w:t>last paragraph of the section</w:t></w:r>`
+		}
+		early.WriteString(`<w:p><w:pPr><w:sectPr>` + er.String() + `<w:type w:val="nextPage"/>` + pageGeometry + etitle + `</w:sectPr></w:pPr>` + run + `</w:p>`)
+	}
 	parts["[Content_Types].xml"] = []byte(ct.String())
 	parts["_rels/.rels"] = []byte(xmlDecl + `<Relationships xmlns="http://schemas.openxmlformats.org/package/2006/relationships">` +
 		`<Relationship Id="rId1" Type="` + nsR + `/officeDocument" Target="word/document.xml"/></Relationships>`)
 	parts["word/_rels/document.xml.rels"] = []byte(rels.String())
 	parts["word/styles.xml"] = []byte(xmlDecl + `<w:styles xmlns:w="` + nsW + `"><w:style w:type="paragraph" w:default="1" w:styleId="Normal"><w:name w:val="Normal"/></w:style>` +
 		`<w:style w:type="paragraph" w:styleId="Header"><w:name w:val="header"/><w:basedOn w:val="Normal"/></w:style><w:style w:type="paragraph" w:styleId="Footer"><w:name w:val="footer"/><w:basedOn w:val="Normal"/></w:style></w:styles>`)
-	parts["word/document.xml"] = []byte(xmlDecl + `<w:document xmlns:w="` + nsW + `" xmlns:r="` + nsR + `"><w:body>` +
+	parts["word/document.xml"] = []byte(xmlDecl + `<w:document xmlns:w="` + nsW + `" xmlns:r="` + nsR + `"><w:body>` + early.String() +
 		`<w:p><w:r><w:t>written by another producer</w:t></w:r></w:p>` +
-		`<w:sectPr>` + refs.String() + `<w:pgSz w:w="11906" w:h="16838"/><w:pgMar w:top="1440" w:right="1800" w:bottom="1440" w:left="1800" w:header="851" w:footer="992" w:gutter="0"/>` + title + `</w:sectPr></w:body></w:document>`)
-	order = append([]string{"[Content_Types].xml", "_rels/.rels", "word/document.xml", "word/_rels/document.xml.rels", "word/styles.xml"}, order...)
+		`<w:sectPr>` + refs.String() + pageGeometry + title + `</w:sectPr></w:body></w:document>`)
+	head := []string{"[Content_Types].xml", "_rels/.rels", "word/document.xml", "word/_rels/document.xml.rels"}
+	if !st.NoStyles {
+		head = append(head, "word/styles.xml")
+	}
+	order = append(head, order...)
 	var buf bytes.Buffer
 	zw := zip.NewWriter(&buf)
 	for _, n := range order {
